@@ -154,6 +154,32 @@ theorem exec_mlInv (sv : Nat) (acts : List Act) : ∀ c : State, MsgLayer.Inv c.
     | emit code obs body il => exact respond_Inv h _ _ _
     | _ => exact h
 
+theorem execF_mlInv (sv : Nat) (acts : List Act) : ∀ c : State, MsgLayer.Inv c.ml →
+    MsgLayer.Inv (execF c sv acts).1.ml := by
+  induction acts with
+  | nil => intro c h; exact h
+  | cons a as ih =>
+    intro c h
+    simp only [execF]
+    cases hf : failingEmit c sv a with
+    | none =>
+      apply ih
+      cases a with
+      | emit code obs body il => exact respond_Inv h _ _ _
+      | _ => exact h
+    | some res =>
+      obtain ⟨code, obs, body, il, tm, remote, w, _, _, h1, _, _⟩ := failingEmit_some hf
+      obtain ⟨c1, os, st⟩ := res
+      simp only at h1 ⊢
+      subst h1
+      apply exec_mlInv
+      have he : MsgLayer.Inv (MsgLayer.handle (respond c.ml sv (mkMsg c code obs body) false).1 (.error remote)).1 :=
+        handle_Inv (respond_Inv h _ _ _) _
+      show MsgLayer.Inv (if il then _ else _)
+      split
+      · exact Inv_of_fields he rfl rfl rfl
+      · exact he
+
 theorem handle_mlInv {c : State} (h : MsgLayer.Inv c.ml) (ev : Ev) : MsgLayer.Inv (handle c ev).1.ml := by
   cases ev with
   | recv r mcl w => exact handle_Inv h _
@@ -171,6 +197,11 @@ theorem handle_mlInv {c : State} (h : MsgLayer.Inv c.ml) (ev : Ev) : MsgLayer.In
     split
     · exact h
     · exact exec_mlInv _ _ _ h
+  | stepFail sv plan acc =>
+    simp only [handle]
+    split
+    · exact h
+    · exact execF_mlInv _ _ _ h
 
 theorem run_mlInv {c : State} (h : MsgLayer.Inv c.ml) (es : List TEv) : MsgLayer.Inv (run c es).1.ml := by
   induction es generalizing c with
